@@ -1725,6 +1725,8 @@ class _Walk:
                 (astx.receiver(e) is not None and self.is_array(astx.receiver(e), arr, at))
         if isinstance(e, ast.Subscript):
             return False if isinstance(e.slice, ast.Constant) else self.is_array(e.value, arr, at)
+        if isinstance(e, ast.Attribute) and e.attr in ('size', 'shape', 'ndim', 'dtype'):
+            return False
         return any(self.is_array(c, arr, at) for c in ast.iter_child_nodes(e) if isinstance(c, ast.expr))
 
     def clamp_test(self, e):
@@ -2677,6 +2679,238 @@ def colored_data(repo, out):
                 key=f'shared-data-{cls}')
 
 
+# =========================================================================== C12.step-scale
+_ABS = {'abs', 'absolute', 'fabs'}
+_LIN_RED = {'sum', 'mean', 'average', 'nansum', 'nanmean', 'median'}
+_ORDER_RED = {'max', 'amax', 'nanmax'}
+
+
+def _magnitude(sm, e, at, depth=0):
+    """Abstract sign/shape of a step scale factor built from the wrt value.
+
+    'E'  signed, elementwise wrt value          'R'  signed value after a reduction
+    'NN' non-negative magnitude (abs taken elementwise before any reduction, or a norm)
+    'BAD' abs applied after a signed reduction  'POS' positive, independent of the value's sign (len, step, 2.0)
+    None not recognised.
+    """
+    if depth > 10:
+        return None
+    if _num(e) is not None:
+        return 'POS' if _num(e) > 0 else None
+    if isinstance(e, ast.Name):
+        if sm.env.get(e.id) == 1:
+            return 'POS'
+        ds = sm.cx.rd.defs(at, e.id)
+        if not ds or sm.cx.g.entry in ds:
+            return None
+        kinds = set()
+        for d in ds:
+            if d.kind == 'stmt' and isinstance(d.ast, ast.Assign) and len(d.ast.targets) == 1 and \
+                    astx.path(d.ast.targets[0]) == e.id:
+                kinds.add(_magnitude(sm, d.ast.value, d, depth + 1))
+            else:
+                kinds.add(None)
+        return kinds.pop() if len(kinds) == 1 else None
+    if isinstance(e, ast.Subscript) and astx.const_str(e.slice) in _STEP_KEYS:
+        return 'POS'
+    if isinstance(e, ast.Attribute) and e.attr in ('size',):
+        return 'POS'
+    if isinstance(e, ast.Attribute) and e.attr in ('real', 'flat', 'T'):
+        return _magnitude(sm, e.value, at, depth + 1)
+    if isinstance(e, ast.UnaryOp) and isinstance(e.op, ast.UAdd):
+        return _magnitude(sm, e.operand, at, depth + 1)
+    if isinstance(e, ast.BinOp):
+        if isinstance(e.op, ast.Pow) and isinstance(e.right, ast.Constant) and isinstance(e.right.value, int) and \
+                e.right.value > 0:
+            a = _magnitude(sm, e.left, at, depth + 1)
+            if e.right.value % 2 == 0 and a in ('E', 'NN'):
+                return 'NN'
+            if e.right.value % 2 == 0 and a in ('R', 'BAD'):
+                return 'BAD'
+            return a
+        a, b = _magnitude(sm, e.left, at, depth + 1), _magnitude(sm, e.right, at, depth + 1)
+        if a is None or b is None:
+            return None
+        if isinstance(e.op, (ast.Mult, ast.Div)):
+            if 'BAD' in (a, b):
+                return 'BAD'
+            ks = {a, b} - {'POS'}
+            if not ks:
+                return 'POS'
+            if ks == {'NN'}:
+                return 'NN'
+            if len(ks) == 1:
+                return ks.pop() if (a == 'POS' or b == 'POS') else None
+            return None
+        if isinstance(e.op, ast.Add):
+            if {a, b} <= {'NN', 'POS'}:
+                return 'NN' if 'NN' in (a, b) else 'POS'
+            return None
+        return None
+    if isinstance(e, ast.Call):
+        nm = astx.callee_attr(e)
+        rc = astx.receiver(e)
+        is_np = rc is None or astx.path(rc) in ('np', 'numpy', 'np.linalg', 'numpy.linalg', 'math')
+        if nm in ('_abs_get_val', 'get_val', '_get_val'):
+            return 'E'
+        arg = e.args[0] if (is_np and e.args) else (rc if not is_np else None)
+        if nm in ('len', 'size'):
+            return 'POS'
+        if arg is None:
+            return None
+        a = _magnitude(sm, arg, at, depth + 1)
+        if a is None:
+            return None
+        if nm in _ABS:
+            return {'E': 'NN', 'NN': 'NN', 'R': 'BAD', 'BAD': 'BAD', 'POS': 'POS'}[a]
+        if nm in _LIN_RED:
+            return {'E': 'R', 'NN': 'NN', 'R': 'R', 'BAD': 'BAD', 'POS': 'POS'}[a]
+        if nm in _ORDER_RED:
+            return {'E': 'R', 'NN': 'NN', 'R': 'R', 'BAD': 'BAD', 'POS': 'POS'}[a]
+        if nm == 'norm':
+            return {'E': 'NN', 'NN': 'NN', 'R': 'BAD', 'BAD': 'BAD', 'POS': 'POS'}[a]
+        if nm in ('sqrt',):
+            return a if a in ('NN', 'POS', 'BAD') else None
+        if nm in ('square',):
+            return {'E': 'NN', 'NN': 'NN', 'R': 'BAD', 'BAD': 'BAD', 'POS': 'POS'}[a]
+        if nm in ('atleast_1d', 'asarray', 'array', 'ravel', 'flatten', 'copy', 'float', 'item', 'real'):
+            return a
+        return None
+    return None
+
+
+@rule('C12.step-scale', floor=3)
+def step_scale(repo, out):
+    """Every relative step_calc branch scales the step by a non-negative magnitude of the wrt value: absolute values are taken elementwise before any reduction (or a norm is used)."""
+    fn = repo.func(FD, 'FiniteDifference._get_approx_data')
+    sm = StepModel(fn)
+    g = sm.cx.g
+    for st, nm, aug in sm.assigns:
+        if nm not in sm.seeds:
+            continue
+        v = st.value
+        if not aug and (_num(v) is not None or isinstance(v, ast.Name) or
+                        (isinstance(v, ast.Subscript) and astx.const_str(v.slice) in _STEP_KEYS) or
+                        (isinstance(v, ast.Call) and astx.callee_attr(v) in ('max', 'maximum', 'fmax', 'clip', 'where'))):
+            continue    # seed, clamp or literal
+        at = g.nodes_of(st)[0]
+        k = _magnitude(sm, v, at)
+        if k == 'POS':
+            continue    # not a value-dependent scale
+        key = 'step-scale'
+        if k == 'NN':
+            out.ok(fn, st, 'relative step scaled by a magnitude with abs taken before the reduction')
+        elif k == 'BAD':
+            out.bad(fn, st, 'the reference magnitude takes the absolute value AFTER a signed reduction: entries of '
+                    'opposite sign cancel, the relative step collapses (to minimum_step) for mixed-sign variables '
+                    'and no longer tracks their size', key=key)
+        elif k in ('E', 'R'):
+            out.bad(fn, st, 'the relative step is scaled by the signed wrt value (no absolute value): a negative or '
+                    'mixed-sign variable gives a negative / cancelled step that is then replaced by minimum_step',
+                    key=key)
+        else:
+            out.unsure(fn, st, 'reference magnitude of the relative step not recognised')
+
+
+# =========================================================================== C12.colored-wrt
+@rule('C12.colored-wrt', floor=1)
+def colored_wrt(repo, out):
+    """The (wrt, meta) pair whose approximation data is shared by all colour groups is drawn from the coloured wrt set, not from the unfiltered _wrt_meta table."""
+    fp = repo.func(AS, 'ApproximationScheme._init_colored_approximations')
+    cp = Ctx(fp)
+    g = cp.g
+    wm = set()
+    for st in astx.walk_stmts(fp.node.body):
+        if isinstance(st, ast.Assign) and len(st.targets) == 1 and isinstance(st.targets[0], ast.Name):
+            v = st.value
+            if (isinstance(v, ast.Call) and astx.callee_attr(v) == '_update_wrt_matches') or \
+                    (isinstance(v, ast.Attribute) and v.attr == 'wrt_matches'):
+                wm.add(st.targets[0].id)
+    if not wm:
+        raise AnalysisError(f'{fp.ident}: the coloured wrt set (wrt_matches) is not computed here')
+    calls = _call_nodes(g, lambda c: astx.callee_attr(c) == '_get_approx_data' and astx.path(astx.receiver(c)) == 'self')
+    if not calls:
+        raise AnalysisError(f'{fp.ident}: no self._get_approx_data call')
+    for n, c in calls:
+        W, M = astx.arg(c, 1, 'wrt'), astx.arg(c, 2, 'meta')
+        key = 'data-wrt-origin'
+        if not isinstance(W, ast.Name):
+            out.unsure(fp, c, 'wrt argument is not a local name')
+            continue
+        wdefs = cp.rd.defs(n, W.id)
+
+        def origin(d):
+            """'table' (unfiltered self._wrt_meta), 'colored' (the coloured set itself) or None."""
+            src_ = d.ast.iter if d.kind == 'iter' else (d.ast.value if d.kind == 'stmt' and
+                                                        isinstance(d.ast, ast.Assign) else None)
+            if src_ is None:
+                return None
+            if any(astx.path(w) == 'self._wrt_meta' for w in astx.walk(src_)):
+                return 'table'
+            if d.kind == 'iter' and isinstance(src_, ast.Name) and src_.id in wm:
+                return 'colored'
+            return None
+        origins = {origin(d) for d in wdefs} if wdefs else {None}
+        if None in origins:
+            out.unsure(fp, c, f'origin of `{W.id}` not recognised')
+            continue
+        # meta must belong to the same wrt
+        m_ok = False
+        if isinstance(M, ast.Name):
+            m_ok = cp.rd.defs(n, M.id) == wdefs and all(
+                any(isinstance(t, ast.Name) and t.id == M.id for t in astx.assigned_targets(d.ast)) for d in wdefs)
+            if not m_ok:
+                sd = cp.single_def(n, M.id)
+                m_ok = bool(sd) and isinstance(sd[0], ast.Subscript) and astx.path(sd[0].value) == 'self._wrt_meta' \
+                    and isinstance(sd[0].slice, ast.Name) and sd[0].slice.id == W.id and \
+                    cp.rd.defs(sd[1], W.id) == wdefs
+        elif isinstance(M, ast.Subscript):
+            m_ok = astx.path(M.value) == 'self._wrt_meta' and isinstance(M.slice, ast.Name) and M.slice.id == W.id
+        if not m_ok:
+            out.unsure(fp, c, f'cannot see that `{astx.src(M)}` is the metadata of `{W.id}`')
+            continue
+        if origins == {'colored'}:
+            out.ok(fp, c, f'`{W.id}` iterates the coloured wrt set itself')
+            continue
+
+        # can the call be reached with  <wm> is not None  and  W not in <wm> ?
+        def ev(e, at):
+            if isinstance(e, ast.BoolOp):
+                vals = [ev(v_, at) for v_ in e.values]
+                if isinstance(e.op, ast.And):
+                    return False if False in vals else (None if None in vals else True)
+                return True if True in vals else (None if None in vals else False)
+            if isinstance(e, ast.UnaryOp) and isinstance(e.op, ast.Not):
+                v_ = ev(e.operand, at)
+                return None if v_ is None else not v_
+            if isinstance(e, ast.Compare) and len(e.ops) == 1:
+                a, b, op = e.left, e.comparators[0], e.ops[0]
+                if isinstance(op, (ast.Is, ast.IsNot, ast.Eq, ast.NotEq)) and isinstance(a, ast.Name) and a.id in wm \
+                        and _const(b, None):
+                    return isinstance(op, (ast.IsNot, ast.NotEq))
+                if isinstance(op, (ast.In, ast.NotIn)) and isinstance(a, ast.Name) and a.id == W.id and \
+                        isinstance(b, ast.Name) and b.id in wm and cp.rd.defs(at, W.id) == wdefs:
+                    return isinstance(op, ast.NotIn)
+            return None
+
+        def allowed(a, lab):
+            if lab == 'exc':
+                return False
+            if a.kind == 'test' and lab in ('true', 'false'):
+                v_ = ev(a.ast.test, a)
+                if v_ is not None:
+                    return v_ == (lab == 'true')
+            return True
+        w = _path_edges(g, [g.entry], [n], (), allowed)
+        if w is not None:
+            out.bad(fp, c, f'`{W.id}`/`{astx.src(M)}` are taken from the unfiltered self._wrt_meta table: the call is '
+                    f'reached for a wrt that is not in the coloured set ({sorted(wm)[0]}), so the step / form of a '
+                    f'non-coloured approximation is used for every coloured column (coloured != uncoloured)', key=key)
+        else:
+            out.ok(fp, c, f'`{W.id}` comes from self._wrt_meta but the call is only reached when '
+                   f'{sorted(wm)[0]} is None or contains it')
+
+
 # =========================================================================== C12.result-buffer
 @rule('C12.result-buffer', floor=2)
 def result_buffer(repo, out):
@@ -2776,6 +3010,26 @@ selftest(
     # ---- colored-data (the FiniteDifference instance already fires on today's tree; this is the sibling)
     Mutant('cs-data-depends-on-wrt', CS, "        step = meta['step']\n        step *= 1j",
            "        step = meta['step'] * abs(system._outputs._abs_get_val(wrt)).max()\n        step *= 1j", 'C12.colored-data'),
+    # ---- step-scale
+    Mutant('scale-abs-after-sum', FD, 'step *= np.sum(np.abs(wrt_val)) / len(wrt_val)', 'step *= np.abs(np.sum(wrt_val)) / len(wrt_val)', 'C12.step-scale'),
+    Mutant('scale-no-abs', FD, 'step *= np.sum(np.abs(wrt_val)) / len(wrt_val)', 'step *= np.sum(wrt_val) / len(wrt_val)', 'C12.step-scale'),
+    Mutant('scale-element-signed', FD, 'step = np.abs(wrt_val) * step', 'step = wrt_val * step', 'C12.step-scale'),
+    Mutant('scale-abs-of-mean', FD, 'step *= np.sum(np.abs(wrt_val)) / len(wrt_val)', 'step *= abs(np.mean(wrt_val))', 'C12.step-scale'),
+    Mutant('scale-legacy-signed-sum', FD, 'step *= np.linalg.norm(wrt_val)', 'step *= np.abs(wrt_val.sum())', 'C12.step-scale'),
+    # ---- colored-wrt
+    Mutant('colored-data-from-first-table-entry', AS,
+           '        for wrt, meta in self._wrt_meta.items():\n            if wrt_matches is None or wrt in wrt_matches:\n'
+           '                # data is the same for all colored approxs so we only need the first\n'
+           '                data = self._get_approx_data(system, wrt, meta)\n                break\n',
+           '        # data is the same for all colored approxs so we only need the first\n'
+           '        wrt, meta = next(iter(self._wrt_meta.items()))\n        data = self._get_approx_data(system, wrt, meta)\n',
+           'C12.colored-wrt'),
+    Mutant('colored-data-filter-dropped', AS,
+           '            if wrt_matches is None or wrt in wrt_matches:\n                # data is the same for all colored approxs so we only need the first\n'
+           '                data = self._get_approx_data(system, wrt, meta)\n                break\n',
+           '            data = self._get_approx_data(system, wrt, meta)\n            break\n', 'C12.colored-wrt'),
+    Mutant('colored-data-filter-and', AS, '            if wrt_matches is None or wrt in wrt_matches:\n                # data is the same',
+           '            if wrt_matches is None or wrt not in wrt_matches:\n                # data is the same', 'C12.colored-wrt'),
     # ---- result-buffer
     Mutant('buffer-colored-live-view', AS, 'results_array = vec.asarray(copy=True)', 'results_array = vec.asarray()', 'C12.result-buffer'),
     Mutant('buffer-uncolored-live-view', AS, 'results_array = system._outputs.asarray(copy=True) if total_or_semi',
@@ -2947,6 +3201,21 @@ selftest(
     Twin('twin-fd-branches-flipped', FD, _FD_RUN,
          '        if not total:\n            system.run_apply_nonlinear()\n            self._results_tmp[:] = system._residuals.asarray()\n'
          '        else:\n            system.run_solve_nonlinear()\n            self._results_tmp[:] = system._outputs.asarray()\n'),
+    Twin('twin-scale-mean-of-abs', FD, 'step *= np.sum(np.abs(wrt_val)) / len(wrt_val)', 'step *= np.mean(np.abs(wrt_val))'),
+    Twin('twin-scale-abs-method-sum', FD, 'step *= np.sum(np.abs(wrt_val)) / len(wrt_val)', 'step *= np.abs(wrt_val).sum() / wrt_val.size'),
+    Twin('twin-scale-temporary', FD, '                    step *= np.sum(np.abs(wrt_val)) / len(wrt_val)\n',
+         '                    mag = np.abs(wrt_val)\n                    step *= np.sum(mag) / len(wrt_val)\n'),
+    Twin('twin-colored-wrt-continue-guard', AS,
+         '            if wrt_matches is None or wrt in wrt_matches:\n                # data is the same for all colored approxs so we only need the first\n'
+         '                data = self._get_approx_data(system, wrt, meta)\n                break\n',
+         '            if wrt_matches is not None and wrt not in wrt_matches:\n                continue\n'
+         '            data = self._get_approx_data(system, wrt, meta)\n            break\n'),
+    Twin('twin-colored-wrt-keys-loop', AS,
+         '        for wrt, meta in self._wrt_meta.items():\n            if wrt_matches is None or wrt in wrt_matches:\n'
+         '                # data is the same for all colored approxs so we only need the first\n'
+         '                data = self._get_approx_data(system, wrt, meta)\n                break\n',
+         '        for wrt in self._wrt_meta:\n            if wrt_matches is None or wrt in wrt_matches:\n'
+         '                data = self._get_approx_data(system, wrt, self._wrt_meta[wrt])\n                break\n'),
     Twin('twin-fd-zero-literal', FD, '        else:\n            results_array[:] = 0.\n\n        # Run', '        else:\n            results_array[:] = 0.0\n\n        # Run'),
     Twin('twin-cs-loop-variable', CS, 'for tup in self._compute_approx_col_iter(system, under_cs=True):\n                yield tup',
          'for item in self._compute_approx_col_iter(system, under_cs=True):\n                yield item'),
